@@ -55,6 +55,7 @@ func c16Extra(p *Program, r *Report) {
 	if err != nil {
 		return
 	}
+	c16Blocking(p, r, m)
 	// R5
 	n := 0
 	for _, s := range m.selectSites() {
@@ -329,4 +330,63 @@ func describeSource(v ssa.Value) string {
 		}
 	}
 	return "another owner"
+}
+
+// c16Blocking (R8): every channel operation package vm performs on a script channel waits for its partner: there is no
+// TryRecv/TrySend and no reflect.Select with a default case. A non-blocking receive that finds nothing ready reports ok == false,
+// which the handlers (rightly, for a blocking receive) take to mean "closed and drained".
+func c16Blocking(p *Program, r *Report, m *vmModel) {
+	r.Explain("R8 every channel operation of package vm waits for its partner: no TryRecv/TrySend, no reflect.Select case with SelectDefault.")
+	n := 0
+	for _, fn := range SrcFuncs(m.sp) {
+		k := 0
+		for _, b := range fn.Blocks {
+			for _, in := range b.Instrs {
+				c, ok := in.(*ssa.Call)
+				if !ok {
+					continue
+				}
+				o := calleeObj(c)
+				if o == nil || o.Pkg() == nil || o.Pkg().Path() != "reflect" {
+					continue
+				}
+				name := o.Name()
+				isMethod := o.Type().(*types.Signature).Recv() != nil
+				switch {
+				case isMethod && (name == "Recv" || name == "Send" || name == "TryRecv" || name == "TrySend"):
+					k++
+					n++
+					r.Check(name == "Recv" || name == "Send", "C16.R8", fmt.Sprintf("%s|channel operation #%d waits", funcName(fn), k), p.Pos(c.Pos()), "blocking "+name,
+						"non-blocking "+name+": when no partner is ready it reports ok == false, which the handler reads as a closed channel: the receive yields nothing (or the loop ends) although the channel is open, and the message sent later is never delivered to this receiver")
+				case !isMethod && name == "Select":
+					k++
+					n++
+					def := false
+					// a case whose Dir is SelectDefault (3)
+					ast := 0
+					_ = ast
+					for _, b2 := range fn.Blocks {
+						for _, in2 := range b2.Instrs {
+							st, ok := in2.(*ssa.Store)
+							if !ok {
+								continue
+							}
+							fa, ok := st.Addr.(*ssa.FieldAddr)
+							if !ok {
+								continue
+							}
+							if pt, ok := fa.X.Type().Underlying().(*types.Pointer); ok && pt.Elem().String() == "reflect.SelectCase" {
+								if k2, ok := st.Val.(*ssa.Const); ok && k2.Value != nil && st.Val.Type().String() == "reflect.SelectDir" && k2.Int64() == 3 {
+									def = true
+								}
+							}
+						}
+					}
+					r.Check(!def, "C16.R8", fmt.Sprintf("%s|channel operation #%d waits", funcName(fn), k), p.Pos(c.Pos()), "reflect.Select without a default case",
+						"a select case with Dir SelectDefault makes the operation non-blocking: 'nothing ready' is then taken for 'closed'")
+				}
+			}
+		}
+	}
+	r.Floor("C16.R8", n, 4)
 }
